@@ -8,7 +8,10 @@
    the remaining operations are tied by the correspondence run (three-way with std::vec::Vec) only. *)
 From Coq Require Import ZArith List Bool Lia Permutation.
 From MV Require Import Ast Eval Scalar Machine Model Policy.
-From MV.Proofs Require Import Arith Logic Prim View OpsLocal Guards Grow CapHistory Drops DrainIt Core Refine Clone Append SplitOff Extend CloneSlice RetainSpec RetainAbs History DrainAbs Resize.
+From MV.Proofs Require Import Arith Logic Prim View OpsLocal Guards Grow CapHistory Drops DrainIt Core Refine Clone Append SplitOff Extend CloneSlice RetainSpec RetainAbs History DrainAbs Resize SourceSpecs.
+From MV Require Import EquivDefs Prims EquivTac EquivElem EquivPop.
+From MV.Gen Require Import AstGen.
+Close Scope string_scope.
 Import ListNotations.
 Open Scope Z_scope.
 
@@ -356,3 +359,33 @@ Theorem C01_resize_body_never_runs_out_of_fuel :
   fst (resize_body cfg ncap v n value s) <> OutOfFuel.
 Proof. exact resize_body_fuel. Qed.
 Print Assumptions C01_resize_body_never_runs_out_of_fuel.
+
+(* END TO END for push and pop: the REGENERATED bodies (re-translated from /repo/src/lib.rs on every run),
+   evaluated by the IR semantics in the machine world with the function-boundary semantics (a by-value
+   element parameter is dropped when the body unwinds; a returned element changes owner), in terms of the
+   list model.  No outcome other than the listed ones is possible. *)
+Theorem C01_the_source_of_push_appends :
+  forall cfg ncap, cfg_ok cfg -> policy_ok ncap -> needs_drop cfg = true ->
+  forall s v l e,
+  vabs cfg s v l -> ledger s e = Live -> ~ In e l -> e < next_elem s ->
+  match param_dropped_on_unwind cfg e (runm cfg ncap lib__MiniVec__push_ast [VObj v; VInt e]) s with
+  | (Norm _, s') => vabs cfg s' v (l ++ [e]) /\ only_changes s s' []
+  | (Panic, s') => vabs cfg s' v l /\ ledger s' e = Dropped /\ only_changes s s' [e]
+  | (Fail FAbort, _) | (Fail (FAllocAbort _ _), _) => True
+  | _ => False
+  end.
+Proof. exact push_source. Qed.
+Theorem C01_the_source_of_pop_takes_the_last :
+  forall cfg ncap, cfg_ok cfg -> needs_drop cfg = true ->
+  forall s v l,
+  vabs cfg s v l -> (Z.of_nat (List.length l) <= ISIZE_MAX) ->
+  match returning cfg (runm cfg ncap lib__MiniVec__pop_ast [VObj v]) s with
+  | (Norm r, s') =>
+      (l = [] /\ r = opt_elem_val None /\ s' = s) \/
+      (exists l0 x, l = l0 ++ [x] /\ r = opt_elem_val (Some x) /\ vabs cfg s' v l0 /\ ledger s' x = Out)
+  | (Fail FAbort, _) | (Fail (FAllocAbort _ _), _) => True
+  | _ => False
+  end.
+Proof. exact pop_source. Qed.
+Print Assumptions C01_the_source_of_push_appends.
+Print Assumptions C01_the_source_of_pop_takes_the_last.
